@@ -205,7 +205,7 @@ Proof. intros s. rewrite id_tokens_toks. unfold count_tokens. apply count_is_len
 (* the delimiter set is exactly XML white space (S ::= #x20 | #x9 | #xD | #xA) *)
 Lemma id_delims_are_xml_space : forall c, is_delim gen_id_delims c = true <-> (c = 32 \/ c = 9 \/ c = 10 \/ c = 13)%N.
 Proof.
-  intros c. unfold is_delim. change gen_id_delims with [32; 9; 10; 13]%N. cbn [existsb]. rewrite !orb_true_iff, !N.eqb_eq. intuition congruence.
+  intros c. unfold is_delim, gen_id_delims. cbn [existsb]. rewrite !orb_true_iff, !N.eqb_eq. intuition congruence.
 Qed.
 
 Definition addopt (f : list N -> option N) (acc : list N) (t : list N) : list N :=
